@@ -837,7 +837,12 @@ impl Lexer<'_> {
             }
             c if is_valid_unicode_sas_name_start(c) => {
                 self.lex_identifier();
-                self.set_pending_stat(true);
+                // A datalines block ends with its own `;`: no statement is pending after it
+                let closed = self
+                    .buffer
+                    .last_token_info()
+                    .map_or(false, |t| t.token_type == TokenType::SEMI);
+                self.set_pending_stat(!closed);
             }
             _ => {
                 // Something else must be a symbol or some unknown character
